@@ -35,3 +35,61 @@ package lpm
 //@   pure
 //@   requires index / 8 < len(data)
 //@   ensures result == (data[index / 8] / pow2u8(7 - index % 8)) % 2
+
+// ---------------------------------------------------------------------------
+// Ownership by transaction id (C01, C13): a trie node is written only if it carries the
+// transaction's id (it was created or cloned by this transaction since the last freeze) or
+// was allocated by the current operation. Every other node may be shared with earlier tries.
+
+//@ func (*lpmNode).prefixLen
+//@   trusted
+//@   pure
+//@ func longestMatch
+//@   trusted
+//@   pure
+//@ func validateTrieRoot
+//@   trusted
+//@   pure
+
+//@ func (*Txn).clone
+//@   property C01 C13
+//@   requires txn != nil
+//@   ensures @nil n == nil ==> result == nil
+//@   ensures @owned n != nil ==> result != nil && result.txnID == txn.txnID && (result == n || fresh(result))
+//@   ensures @same-only-if-owned n != nil && result == n ==> old(n.txnID) == txn.txnID
+//@   ensures @frame onlyFresh()
+
+//@ func (*Txn).Insert
+//@   property C01 C13
+//@   flag nosafety
+//@   flag assumepre=well-formed-LPM-keys-and-trie
+//@   maypanic
+//@   requires txn != nil
+//@   atstore lpmNode requires @store-owned $p.txnID == txn.txnID || fresh($p)
+//@   loop 1 invariant @walk-owned (node != nil ==> node.txnID == txn.txnID) && node == *nodep && (nodep == addr(txn.root) || (isElemOf(lpmNode, nodep) && elemOwner(lpmNode, nodep).txnID == txn.txnID))
+
+//@ func (*Txn).Delete
+//@   property C01 C13
+//@   flag nosafety
+//@   flag assumepre=well-formed-LPM-keys-and-trie
+//@   maypanic
+//@   requires txn != nil
+//@   atstore lpmNode requires @store-owned $p.txnID == txn.txnID || fresh($p)
+
+// Operations that let the current root escape first move the transaction to a new id.
+//@ func (*Txn).All
+//@   property C01 C13
+//@   requires txn != nil
+//@   ensures txn.root != nil ==> txn.txnID == old(txn.txnID) + 1
+//@ func (*Txn).Commit
+//@   property C01 C13
+//@   requires txn != nil
+//@   ensures result.root == txn.root && result.size == txn.size && result.prevTxnID == txn.txnID
+//@ func (*Trie).Txn
+//@   property C01 C13
+//@   requires l != nil
+//@   ensures result != nil && fresh(result) && result.root == l.root && result.size == l.size && result.txnID == l.prevTxnID + 1
+//@ func (*Txn).Reuse
+//@   property C01 C13
+//@   requires txn != nil
+//@   ensures result == txn && txn.root == trie.root && txn.size == trie.size && txn.txnID == trie.prevTxnID + 1
